@@ -105,8 +105,24 @@ def run(ctx):
                      values.contains(x, lambda y: isinstance(y, tuple) and y and y[0] == "field" and "srep" in str(y[2]).lower())]
         # the SREP message itself, or fields taken from it (`srep.get_field(SIG)` looked up once per batch and passed down)
         ct0 = sev.call_term(calls[0]) if calls else None
-        from_this = [x for x in a[1:] if ct0 is not None and (x == ct0 or values.contains(x, lambda y: y == ct0))]
-        other_srep = [x for x in a[1:] if x not in from_this and values.contains(x, lambda y: isinstance(y, tuple) and y and y[0] == "field" and "srep" in str(y[2]).lower())]
+        def only_from(x, depth=0):
+            """x is this invocation's SREP or a part of it (a field looked up in it, its encoding), on every alternative"""
+            if depth > 8 or not isinstance(x, tuple) or not x:
+                return False
+            if x == ct0:
+                return True
+            if x[0] == "phi":
+                return all(only_from(y, depth + 1) for y in x[1])
+            if x[0] in ("vfield", "field", "variant", "index", "reader", "cast"):
+                return only_from(x[1], depth + 1)
+            if x[0] == "call" and x[2]:
+                rest_const = all(isinstance(y, tuple) and y and y[0] in ("enum", "int", "str", "bytes", "static") for y in x[2][1:])
+                return rest_const and only_from(x[2][0], depth + 1)
+            return False
+        mentions = [x for x in a[1:] if ct0 is not None and values.contains(x, lambda y: y == ct0)]
+        from_this = [x for x in mentions if only_from(x)]
+        other_srep = [x for x in a[1:] if x not in from_this and (x in mentions or values.contains(x, lambda y: isinstance(y, tuple) and y and y[0] == "field" and "srep" in str(y[2]).lower()))]
+        srep_args = other_srep or srep_args
         fresh = bool(from_this) and not other_srep
         ctx.check("clock", "responses-carry-this-batchs-SREP", fresh, "make_response is given the SREP returned by this invocation's make_srep(.., now, ..)",
                   "the SREP put into responses is %s: it can be one signed for an earlier batch, whose midpoint is not the clock reading of this batch" % [fmt(x)[:160] for x in srep_args[:2]], sr.loc(mb))
